@@ -462,7 +462,8 @@ _public_ int m_mod_register(const char *name, m_mod_t **mod_ref, const m_mod_hoo
     M_PARAM_ASSERT(!hook || hook->on_evt);
     M_CTX_ASSERT();
     
-    if (c->finalized) {
+    /* No more modules in a finalized context, nor in one that is being deregistered */
+    if (c->finalized || c->state == M_CTX_ZOMBIE) {
         return -EPERM;
     }
 
